@@ -13,6 +13,7 @@ must agree with each other.
 
 from __future__ import annotations
 
+import copy
 import math
 
 import numpy as np
@@ -126,6 +127,69 @@ def gen_config(rng: Prng) -> dict:
             else [round(rng.uniform(-500, 500), 3) for _ in range(3)]}
 
 
+INT_AXES = [[1.0, 0.0, 0.0], [0.0, -1.0, 0.0], [0.0, 0.0, 1.0], [0.6, 0.8, 0.0], [0.0, -0.6, 0.8], [-0.8, 0.0, 0.6]]
+
+
+def gen_int_config(rng: Prng) -> dict:
+    """Every coordinate and radius an integer, handed to the constructors as Python ints / integer arrays
+    (`VolSphere((0, 0, 0), 4)` is how the pinned tests build spheres)."""
+    cfg = gen_config(rng)
+    r1 = rng.choice([1, 2, 3, 4, 5, 8, 10])
+    r2 = rng.choice([max(1, r1 - 1), max(1, r1 // 2), 1, r1, r1 + 1, 2 * r1, 3 * r1])
+    axis = rng.choice(INT_AXES)
+    dir2 = rng.choice(INT_AXES)
+    unit = 5 if 0.6 in [abs(a) for a in list(axis) + list(dir2)] else 1
+    h = unit * rng.choice([1, 1, 2, 3, 5, 8])
+    rb = rng.choice([r1, max(1, r1 // 2), 2 * r1, rng.randint(1, 12)])
+    r1, r2, rb = r1 * unit, r2 * unit, rb * unit  # centre distances below stay multiples of `unit`
+    d = unit * rng.randint(0, 4) if rng.chance(0.7) else (r1 + rb)
+    cfg.update({"r1": r1, "r2": r2, "h": h, "rb": rb, "d": d, "axis": list(axis), "dir2": list(dir2),
+                "offset": [float(rng.randint(-20, 20)) for _ in range(3)] if rng.chance(0.6) else [0.0, 0.0, 0.0],
+                "ints": rng.choice(["tuple", "tuple", "array", "list"]), "caps": [float(rng.choice([0, 1, 2])) for _ in range(3)],
+                "taper": "int", "hk": "int", "dk": "int"})
+    return cfg
+
+
+def mirror_axis(rng: Prng, axis: list) -> list:
+    how = rng.choice(["negate", "flip1", "flip2", "perm", "swap", "fresh", "same"])
+    a = list(axis)
+    if how == "negate":
+        return [-x for x in a]
+    if how == "flip1":
+        k = rng.below(3)
+        a[k] = -a[k]
+        return a
+    if how == "flip2":
+        k = rng.below(3)
+        return [(-x if i != k else x) for i, x in enumerate(a)]
+    if how == "perm":
+        return [a[1], a[2], a[0]]
+    if how == "swap":
+        return [a[1], a[0], a[2]]
+    if how == "fresh":
+        return gen_axis(rng)
+    return a
+
+
+def gen_followups(rng: Prng, cfg: dict) -> list:
+    """Further configurations evaluated in the same process after the first one: the same solid along a mirrored,
+    permuted or fresh axis, optionally with another taper. Objects of the earlier evaluations are gone by then
+    (their addresses get reused), and whatever the library remembered from them must not leak."""
+    out = []
+    for _ in range(rng.weighted([(0, 3), (1, 3), (2, 3), (4, 1)])):
+        f = {"axis": mirror_axis(rng, cfg["axis"])}
+        if cfg.get("ints") and f["axis"] not in [cfg["axis"], [-x for x in cfg["axis"]]]:
+            ok = all(abs(abs(x) * cfg["h"] - round(abs(x) * cfg["h"])) < 1e-9 for x in f["axis"])
+            if not ok:
+                f["axis"] = [-x for x in cfg["axis"]]
+        if rng.chance(0.4) and not cfg.get("ints"):
+            f["r2"] = cfg["r1"] * rng.choice([0.9, 0.5, 0.25, 1.5])
+        if rng.chance(0.3) and not cfg.get("ints"):
+            f["h"] = cfg["h"] * rng.choice([0.5, 2.0, 3.0])
+        out.append(f)
+    return out
+
+
 def gen_schedule(rng: Prng) -> dict:
     kind = rng.weighted([("seed", 3), ("parallel", 3), ("antiparallel", 3), ("near", 3), ("axis", 2)])
     s = {"kind": kind, "seed": rng.below(2**31)}
@@ -143,7 +207,10 @@ def generate(rng: Prng, tier: str) -> dict:
     rs = rng.stream("rng.draws")
     scheds = [{"kind": "seed", "seed": rs.below(2**31), "repeat": 1}, {"kind": "seed", "seed": rs.below(2**31), "repeat": 1}]
     scheds += [gen_schedule(rs) for _ in range(rs.randint(2, 4))]
-    return {"prop": PROP, "cfg": gen_config(w), "schedules": scheds,
+    hist = rng.stream("history")
+    cfg = gen_int_config(w) if hist.chance(0.12) else gen_config(w)
+    cfg["shared_order"] = hist.choice(["far_first", "near_first"])
+    return {"prop": PROP, "cfg": cfg, "schedules": scheds, "followups": gen_followups(hist, cfg),
             "config": "faulting" if any(s["kind"] != "seed" for s in scheds) else "fault_free"}
 
 
@@ -184,20 +251,29 @@ def evaluate(cfg: dict) -> dict:
     r1, r2, rb = cfg["r1"], cfg["r2"], cfg["rb"]
     scribble = bool(cfg.get("scribble"))
 
+    ints = cfg.get("ints")
+
+    def as_input(c):
+        if not ints:
+            return np.array(c, dtype=np.float64)  # the caller's own buffer
+        q = [int(round(float(v))) for v in c]
+        assert max(abs(a - b) for a, b in zip(q, c)) < 1e-9, "integral configuration expected"
+        return tuple(q) if ints == "tuple" else (np.array(q, dtype=np.int64) if ints == "array" else q)
+
     def S(c, r):
-        a = np.array(c, dtype=np.float64)  # the caller's own buffer
+        a = as_input(c)
         o = VolSphere(a, r)
-        if scribble:  # the caller reuses its buffer after construction: the solid must not move with it
-            a *= -3.0
-            a += 11.0
+        if scribble and isinstance(a, np.ndarray):  # the caller reuses its buffer: the solid must not move with it
+            a *= -3
+            a += 11
         return o
 
     def F(ca, ra, cb_, rb_):
-        a, b = np.array(ca, dtype=np.float64), np.array(cb_, dtype=np.float64)
+        a, b = as_input(ca), as_input(cb_)
         o = VolFrustumCone(a, ra, b, rb_)
-        if scribble:
-            a += 5.0
-            b *= 0.5
+        if scribble and isinstance(a, np.ndarray):
+            a += 5
+            b *= 2
         return o
 
     out = {}
@@ -221,6 +297,14 @@ def evaluate(cfg: dict) -> dict:
     S(c1, r1).intersect(fr).get_volume()
     out["frustum_reused"] = fr.get_volume()
     out["sf_near_union_reused"] = S(c1, r1).union(fr).get_volume()
+    # ONE frustum object met by the spheres at both of its ends, in either order: which end a sphere sits on is a
+    # fact about the (sphere, frustum) pair, not something the frustum may remember from the first sphere it met
+    fr2 = F(c1, r1, c2, r2)
+    order = ["far", "near"] if cfg.get("shared_order") == "far_first" else ["near", "far"]
+    for end in order:
+        sc, sr = (c1, r1) if end == "near" else (c2, r2)
+        out[f"sf_{end}_intersect_shared"] = S(sc, sr).intersect(fr2).get_volume()
+        out[f"sf_{end}_union_shared"] = S(sc, sr).union(fr2).get_volume()
     return {k: float(v) for k, v in out.items()}, axis
 
 
@@ -269,6 +353,18 @@ def tol_for(cfg: dict, key: str) -> float:
     return 1e-4 if loose else 1e-6
 
 
+def judge(cfg: dict, ref: dict, scale: float, got: dict, where: str):
+    for key, val in sorted(got.items()):
+        rkey = key.replace("_rev", "").replace("_flip", "").replace("_reused", "").replace("_shared", "")
+        exp = ref[rkey]
+        tol = tol_for(cfg, key)
+        if not (abs(val - exp) <= tol * max(abs(exp), 1e-6 * scale) + 1e-12):
+            return {"tag": "wrong_volume", "op": rkey,
+                    "detail": f"{key} = {val!r}, true volume {exp!r} (rel err {abs(val - exp) / max(abs(exp), 1e-300):.3g}) "
+                              f"{where}; r1={cfg['r1']} r2={cfg['r2']} h={cfg['h']} rb={cfg['rb']} d={cfg['d']} axis={cfg['axis']}"}
+    return None
+
+
 def execute(program: dict) -> dict:
     cfg = program["cfg"]
     violation = None
@@ -278,6 +374,8 @@ def execute(program: dict) -> dict:
     scale = max(ref["sphere"], ref["frustum"], 1e-300)
     with World() as world:
         results = []
+        if cfg.get("ints"):
+            world.probe("c13.integer_typed_inputs")
         try:
             for si, s in enumerate(program["schedules"]):
                 steps += 1
@@ -293,15 +391,7 @@ def execute(program: dict) -> dict:
                 world.log(si, s["kind"], draws, {k: float.hex(v) for k, v in sorted(got.items())})
                 if draws > 8:
                     world.probe("c13.redraw_loop_taken")
-                for key, val in sorted(got.items()):
-                    rkey = key.replace("_rev", "").replace("_flip", "").replace("_reused", "")
-                    exp = ref[rkey]
-                    tol = tol_for(cfg, key)
-                    if not (abs(val - exp) <= tol * max(abs(exp), 1e-6 * scale) + 1e-12):
-                        violation = {"tag": "wrong_volume", "op": rkey,
-                                     "detail": f"{key} = {val!r}, true volume {exp!r} (rel err {abs(val - exp) / max(abs(exp), 1e-300):.3g}) "
-                                               f"under schedule {s['kind']}; r1={cfg['r1']} r2={cfg['r2']} h={cfg['h']} rb={cfg['rb']} d={cfg['d']}"}
-                        break
+                violation = judge(cfg, ref, scale, got, f"under schedule {s['kind']}")
                 if violation:
                     break
                 results.append((s["kind"], got))
@@ -312,11 +402,28 @@ def execute(program: dict) -> dict:
                     for key in first:
                         a, b = first[key], got[key]
                         if abs(a - b) > 1e-9 * max(abs(a), abs(b), 1e-6 * scale):
-                            violation = {"tag": "schedule_dependence", "op": key.replace("_rev", "").replace("_flip", "").replace("_reused", ""),
+                            violation = {"tag": "schedule_dependence", "op": key.replace("_rev", "").replace("_flip", "").replace("_reused", "").replace("_shared", ""),
                                          "detail": f"{key}: {a!r} under `seed` but {b!r} under `{kind}`"}
                             break
                     if violation:
                         break
+            # follow-up configurations in the same process (session history)
+            for fi, f in enumerate(program.get("followups") or []):
+                if violation:
+                    break
+                steps += 1
+                cfg2 = dict(cfg, **f)
+                ref2 = reference(cfg2)
+                scale2 = max(ref2["sphere"], ref2["frustum"], 1e-300)
+                install_schedule(world, {"kind": "seed", "seed": 12345 + fi, "repeat": 1}, cfg2["axis"])
+                try:
+                    got2, _ = evaluate(cfg2)
+                except Exception as e:  # noqa: BLE001
+                    violation = {"tag": "raised", "op": f"followup/{type(e).__name__}", "detail": f"{type(e).__name__}: {e}"[:300]}
+                    break
+                world.log("followup", fi, {k: float.hex(v) for k, v in sorted(got2.items())})
+                world.probe("c13.followup_configuration")
+                violation = judge(cfg2, ref2, scale2, got2, f"in follow-up {fi} (after {fi + 1} earlier configuration(s) in this process)")
         finally:
             world.rng_inject.clear()
         faults = dict(world.faults)
@@ -334,6 +441,12 @@ def execute(program: dict) -> dict:
 
 def shrink_candidates(program: dict):
     yield from shrink.drop_from_list(program, ["schedules"], min_len=1)
+    if program.get("followups"):
+        yield from shrink.drop_from_list(program, ["followups"])
+    if program["cfg"].get("ints"):
+        q = copy.deepcopy(program)
+        q["cfg"]["ints"] = None
+        yield q
     cfg = program["cfg"]
     for key in ("axis", "dir2"):
         if cfg[key] != [0.0, 0.0, 1.0]:
